@@ -1319,6 +1319,130 @@ def ld_state_rule(ctx):
     return res
 
 
+def orth_init_rule(ctx):
+    """ORTH-INIT: every reflection vector the constructor builds is non-zero and every index it
+    writes exists, for every accepted (features, num_transforms).  The initial vectors are rows
+    of torch.eye(R, C): a row beyond the C-th is zero, and a zero vector makes 2 / |q|^2 infinite
+    (NaN outputs).  R, C and the written column indices are closed integer formulas of the
+    constructor arguments; they are evaluated on a grid of accepted arguments (the checker's own
+    integer evaluator), under the condition of the branch they stand in."""
+    from ..astutil import _int_eval, _NoEval
+
+    p = ctx.p
+    res = RuleResult("ORTH-INIT", "HouseholderSequence: the initial reflection vectors are non-zero and the constructor's index writes are in range for every accepted (features, num_transforms)")
+    hs = p.find_class("HouseholderSequence", "nflows.transforms.orthogonal")
+    init = hs.methods.get("__init__")
+    if init is None:
+        raise AnalysisIncomplete("HouseholderSequence.__init__ missing")
+    params = [a for a, _ in init.params()]
+    if params[:2] != ["features", "num_transforms"]:
+        raise AnalysisIncomplete("HouseholderSequence.__init__ signature changed")
+    GRID = [(f, k) for f in range(1, 7) for k in range(1, 15)]
+
+    def enclosing_conds(node):
+        out = []
+        cur = node
+        while cur is not None and cur is not init.node:
+            par = getattr(cur, "_parent", None)
+            if isinstance(par, ast.If):
+                if cur in par.body:
+                    out.append((par.test, True))
+                elif cur in par.orelse:
+                    out.append((par.test, False))
+            if isinstance(par, ast.FunctionDef) and par is not init.node:
+                return None  # inside a nested helper: not a constructor-level expression
+            cur = par
+        return out
+
+    def holds(conds, env):
+        for t, pol in conds:
+            try:
+                if bool(_int_eval(t, env)) != pol:
+                    return False
+            except _NoEval:
+                continue
+        return True
+
+    # constructor locals assigned exactly once are read through (num_pairs = num_transforms // 2)
+    local_defs = {}
+    for st in ast.walk(init.node):
+        if isinstance(st, ast.Assign) and len(st.targets) == 1 and isinstance(st.targets[0], ast.Name):
+            local_defs.setdefault(st.targets[0].id, []).append(st.value)
+
+    class _Res(ast.NodeTransformer):
+        def visit_Name(self, node):
+            vals = local_defs.get(node.id, [])
+            if node.id not in ("features", "num_transforms") and len(vals) == 1 and isinstance(node.ctx, ast.Load):
+                from ..symexp import clone
+
+                return self.visit(clone(vals[0]))
+            return node
+
+    _orig_eval = _int_eval
+
+    def _int_eval(e, env):  # noqa: F811
+        from ..symexp import clone
+
+        return _orig_eval(_Res().visit(clone(e)), env)
+
+    n = 0
+    undecided = []
+    for node in ast.walk(init.node):
+        # (a) torch.eye(R, C): rows >= C are zero
+        if isinstance(node, ast.Call) and norm_text(node.func) == "torch.eye" and len(node.args) >= 2:
+            conds = enclosing_conds(node)
+            if conds is None:
+                continue
+            n += 1
+            witness = None
+            for f, k in GRID:
+                env = {"features": f, "num_transforms": k}
+                if not holds(conds, env):
+                    continue
+                try:
+                    r, c = _int_eval(node.args[0], env), _int_eval(node.args[1], env)
+                except _NoEval:
+                    undecided.append(norm_text(node)[:60])
+                    witness = None
+                    break
+                if r > c:
+                    witness = (f, k, r, c)
+                    break
+            if witness is not None:
+                res.fail(Finding("ORTH-INIT", init.module, init.qualname, node, "`%s` has %d rows but only %d columns for features=%d, num_transforms=%d: the rows beyond the %d-th are zero vectors, and a reflection about a zero vector is 0/0 (NaN outputs)" % (norm_text(node)[:50], witness[2], witness[3], witness[0], witness[1], witness[3]), construct="rows of the initial reflection vectors"))
+            elif norm_text(node)[:60] not in undecided:
+                res.ok("%s: never more rows than columns" % norm_text(node)[:50])
+        # (b) stores q[i, J] = v into the vectors: J must be a column
+        if isinstance(node, ast.Assign) and len(node.targets) == 1 and isinstance(node.targets[0], ast.Subscript) and isinstance(node.targets[0].slice, ast.Tuple) and len(node.targets[0].slice.elts) == 2:
+            conds = enclosing_conds(node)
+            if conds is None:
+                continue
+            col = node.targets[0].slice.elts[1]
+            n += 1
+            witness = None
+            for f, k in GRID:
+                env = {"features": f, "num_transforms": k}
+                if not holds(conds, env):
+                    continue
+                try:
+                    j = _int_eval(col, env)
+                except _NoEval:
+                    undecided.append(norm_text(node)[:60])
+                    break
+                if not (-f <= j < f):
+                    witness = (f, k, j)
+                    break
+            if witness is not None:
+                res.fail(Finding("ORTH-INIT", init.module, init.qualname, node, "`%s` writes column %d of vectors with %d features for features=%d, num_transforms=%d: the constructor raises IndexError for arguments it accepts" % (norm_text(node)[:50], witness[2], witness[0], witness[0], witness[1]), construct="column written by the constructor"))
+            elif norm_text(node)[:60] not in undecided:
+                res.ok("%s: column always in range" % norm_text(node)[:50])
+    for u in undecided:
+        res.undecide("HouseholderSequence.__init__ `%s`" % u, "not a closed integer formula of (features, num_transforms)")
+    if n < 1:
+        raise AnalysisIncomplete("ORTH-INIT: no initial-vector construct found in HouseholderSequence.__init__")
+    return res
+
+
 def ld_elem_rule(ctx):
     """The scalar nonlinearities sum an elementwise log-derivative: their map must be elementwise."""
     from .c07 import elementwise_rule, SCALAR_TABLE
@@ -1415,7 +1539,7 @@ register(
 
 register(
     "C11",
-    [lin_complete_rule, lin_word_rule, lin_pos_rule, orth_rule],
+    [lin_complete_rule, lin_word_rule, lin_pos_rule, orth_rule, orth_init_rule],
     "LIN-COMPLETE: every concrete Linear subclass resolves all five accessors, both no-cache paths and both combined accessors "
     "to non-abstract bodies. LIN-WORD: abstract interpretation of every accessor and no-cache pass into the free group with "
     "transposition over the factor matrices (triangular factors identified by the index buffers and values stored into a zero "
@@ -1427,7 +1551,9 @@ register(
     "log|det|, also spelled through slogdet or the diagonal of its LU factors), inverse_no_cache its negation. Equality is of "
     "normal forms; an operation outside the table leaves the accessor undecided (exit 2). LIN-POS: that diagonal is positive for every parameter value (sign lattice). ORTH-REV: "
     "HouseholderSequence.inverse applies the same rows in exactly reversed order and every step is the reflection "
-    "x - outer(x.q, (2/|q|^2) q) with its own norm. Numeric accuracy of the inverse and usability for every accepted size "
+    "x - outer(x.q, (2/|q|^2) q) with its own norm. ORTH-INIT: the initial reflection vectors are rows of torch.eye(R, C) and "
+    "index writes into them; R <= C and every written column < features are checked as closed integer formulas of the "
+    "constructor arguments on a grid of accepted (features, num_transforms) -- a zero vector makes 2/|q|^2 infinite. Numeric accuracy of the inverse and usability for every accepted size "
     "(e.g. Householder counts beyond the feature count) are value facts and are NOT decided.",
     [A_CFG, T_OPS],
 )
